@@ -6,7 +6,7 @@ SGE = "geneticengine/representations/grammatical_evolution/structured_ge.py"
 DSGE = "geneticengine/representations/grammatical_evolution/dynamic_structured_ge.py"
 
 R.cls("SGEGenotype", src="Genotype", fields={"dna": "dict[~Str,list[int]]"}, file=SGE, init_fields=["dna"])
-R.cls("StructuredGrammaticalEvolutionRepresentation", fields={"grammar": "Grammar", "gene_length": "int", "decider": "SynthesisDecider"}, file=SGE)
+R.cls("StructuredGrammaticalEvolutionRepresentation", fields={"grammar": "Grammar", "gene_length": "int", "decider": "MaxDepthDecider"}, file=SGE)
 R.classes["DSGEGenotype"].fields["dna"] = "dict[~Type,list[int]]"
 R.classes["DSGEGenotype"].init_fields = ["random", "dna"]
 R.cls("DynamicStructuredGrammaticalEvolutionRepresentation", fields={"grammar": "Grammar", "max_depth": "int"}, file=DSGE)
